@@ -8,8 +8,13 @@
   The theorems: the accepted window bits are exactly 8..15 (RFC 7692 §7.1.2), and for every
   accepted value the compressor is created with a raw-deflate window zlib accepts (-15..-9) that
   is at least the negotiated one, equal to it except for 8 (zlib cannot do a 256-byte window).
-  (The tie of `Http.getWbits` to the same range test is `C10Gen.gen_getWbits`.)  Theorems only.
+  (The tie of `Http.getWbits` to the same range test is `C10Gen.gen_getWbits`.)
+  `deflateGetWbits` is the whole of `Deflate.get_wbits` (`options.get(key, "15")`, `int()`, the
+  range test) and `deflateFromOptions` the whole of `Deflate.from_options` (which option feeds
+  which field of the `Deflate` object); `Http.getWbits` / `Http.deflateFromOptions` are these
+  functions.  Theorems only.
 -/
+import Lomond.Model.Http
 import Lomond.Proofs.GenTie
 import Lomond.Generated.Code
 
@@ -55,5 +60,103 @@ theorem gen_compressorWbits_valid (w : Nat) (h8 : 8 ≤ w) (h15 : w ≤ 15) :
 
 example : deflateCompressorWbits 8 = -9 := by decide
 example : deflateCompressorWbits 15 = -15 := by decide
+
+/-! ### `get_wbits` and `from_options` in full -/
+
+/-- Python's `int(str)` as the model reads it (`Http.pyInt`: sign and magnitude), as an integer;
+    `none` = ValueError -/
+def pyIntZ (s : Http.Str) : Option Int :=
+  (Http.pyInt Http.isStrSpace s).map (fun p => if p.1 then -(p.2 : Int) else (p.2 : Int))
+
+/-- the options dict of `parse_extension` (filled by `options[key] = value` token by token, so a
+    later duplicate wins) is the model's association list read newest first -/
+theorem gen_optGet (opts : List (Http.Str × Http.Str)) (k : Http.Str) :
+    Py.dictGet? opts.reverse k = Http.optGet opts k := rfl
+
+theorem gen_optHas (opts : List (Http.Str × Http.Str)) (k : Http.Str) :
+    Py.dictHas opts.reverse k = (Http.optGet opts k).isSome := rfl
+
+/-- `Http.getWbits` is the translated `Deflate.get_wbits`: the option is looked up under `key`,
+    a missing option counts as `"15"`, a value `int()` rejects or one outside 8..15 is a
+    CompressionParameterError (the model carries the formatted text), else it is the value. -/
+theorem gen_getWbits_full (opts : List (Http.Str × Http.Str)) (key : String) :
+    Http.getWbits opts key =
+      match deflateGetWbits opts.reverse (Http.ofString key) pyIntZ with
+      | .ok w => .ok w.toNat
+      | .error e =>
+        if e.msg = "{} is not an integer" then .error (Http.ofString (key ++ " is not an integer"))
+        else
+          match Http.pyInt Http.isStrSpace ((Http.optGet opts (Http.ofString key)).getD (Http.ofString "15")) with
+          | some (neg, n) =>
+            .error (Http.ofString (key ++ "=" ++ (if neg then "-" else "") ++ toString n ++ " is invalid"))
+          | none => .error [] := by
+  unfold Http.getWbits deflateGetWbits pyIntZ
+  simp only [gen_optGet, show Py.str "15" = Http.ofString "15" from rfl]
+  generalize Http.pyInt Http.isStrSpace _ = r
+  rcases r with _ | ⟨neg, n⟩
+  · simp
+  · cases neg
+    · by_cases c : n < 8 ∨ n > 15
+      · have : ((n : Int) < 8 ∨ (n : Int) > 15) := by omega
+        simp [c, this]
+      · have : ¬ ((n : Int) < 8 ∨ (n : Int) > 15) := by omega
+        simp [c, this]
+    · have : (-(n : Int) < 8 ∨ -(n : Int) > 15) := by omega
+      simp [this]
+
+/-- accepted by the translated `get_wbits` ⇒ the model returns the same number -/
+theorem gen_getWbits_ok (opts : List (Http.Str × Http.Str)) (key : String) (w : Int)
+    (h : deflateGetWbits opts.reverse (Http.ofString key) pyIntZ = .ok w) :
+    Http.getWbits opts key = .ok w.toNat := by
+  rw [gen_getWbits_full, h]
+
+/-- rejected by the translated `get_wbits` ⇒ the model rejects -/
+theorem gen_getWbits_error (opts : List (Http.Str × Http.Str)) (key : String) (e : Py.Err)
+    (h : deflateGetWbits opts.reverse (Http.ofString key) pyIntZ = .error e) :
+    ∃ m, Http.getWbits opts key = .error m := by
+  rw [gen_getWbits_full, h]
+  simp only []
+  split
+  · exact ⟨_, rfl⟩
+  · split <;> exact ⟨_, rfl⟩
+
+/-- `Http.deflateFromOptions` is the translated `Deflate.from_options`:
+    `decompress_wbits ← server_max_window_bits`, `compress_wbits ← client_max_window_bits`,
+    `reset_decompress ← server_no_context_takeover`, `reset_compress ← client_no_context_takeover`,
+    the server parameter checked first; an error of either `get_wbits` is the error. -/
+theorem gen_deflateFromOptions (opts : List (Http.Str × Http.Str)) :
+    match deflateFromOptions opts.reverse pyIntZ with
+    | .ok (d, c, rd, rc) =>
+      Http.deflateFromOptions opts =
+        .ok { decompressWbits := d.toNat, compressWbits := c.toNat, resetDecompress := rd, resetCompress := rc }
+    | .error _ =>
+      ∃ m, Http.deflateFromOptions opts = .error m ∧
+        (Http.getWbits opts "server_max_window_bits" = .error m ∨
+         (∃ w, Http.getWbits opts "server_max_window_bits" = .ok w) ∧
+           Http.getWbits opts "client_max_window_bits" = .error m) := by
+  unfold Http.deflateFromOptions deflateFromOptions
+  simp only [gen_optHas,
+    show Py.str "server_max_window_bits" = Http.ofString "server_max_window_bits" from rfl,
+    show Py.str "client_max_window_bits" = Http.ofString "client_max_window_bits" from rfl,
+    show Py.str "server_no_context_takeover" = Http.ofString "server_no_context_takeover" from rfl,
+    show Py.str "client_no_context_takeover" = Http.ofString "client_no_context_takeover" from rfl]
+  cases h1 : deflateGetWbits opts.reverse (Http.ofString "server_max_window_bits") pyIntZ with
+  | error e1 =>
+    obtain ⟨m, hm⟩ := gen_getWbits_error opts _ e1 h1
+    exact ⟨m, by simp [hm, bind, Except.bind], Or.inl hm⟩
+  | ok w1 =>
+    have g1 := gen_getWbits_ok opts _ w1 h1
+    cases h2 : deflateGetWbits opts.reverse (Http.ofString "client_max_window_bits") pyIntZ with
+    | error e2 =>
+      obtain ⟨m, hm⟩ := gen_getWbits_error opts _ e2 h2
+      exact ⟨m, by simp [g1, hm, bind, Except.bind], Or.inr ⟨⟨_, g1⟩, hm⟩⟩
+    | ok w2 =>
+      have g2 := gen_getWbits_ok opts _ w2 h2
+      simp [g1, g2, bind, Except.bind, pure, Except.pure]
+
+example : deflateFromOptions [] (fun _ => some 15) = .ok (15, 15, false, false) := by decide
+example : deflateGetWbits [(Py.str "k", Py.str "9")] (Py.str "k") (fun _ => some 9) = .ok 9 := by decide
+example : deflateGetWbits [] (Py.str "k") (fun _ => none) =
+    .error ⟨"CompressionParameterError", "{} is not an integer"⟩ := by decide
 
 end Lomond.C06Gen
